@@ -16,7 +16,7 @@ for d in SEED/[0-9]*; do
   echo "--- demo with mutant" >> $L; ( [ -n "$run" ] && timeout 900 sh $run ) > $d/confirm_mutant.out 2>&1; echo "exit=$?" >> $L; tail -15 $d/confirm_mutant.out >> $L
   echo "--- test suite with mutant" >> $L
   mkdir -p target
-  timeout 5400 cargo test --workspace --offline --no-fail-fast > $d/confirm_suite.log 2>&1
+  timeout 5400 cargo test --workspace --offline --no-fail-fast --lib --bins --tests > $d/confirm_suite.log 2>&1
   grep -E "^test result|FAILED|failed" $d/confirm_suite.log | sort | uniq -c | tail -20 >> $L
   git checkout -q -- .
 done
